@@ -228,13 +228,18 @@ def body(chk):
         X = pbx.gen_bounds(rng, 200, kind, dy=rng.random() < 0.5)
         p = Staircase(np.array(X[0]), np.array(X[1]))
         pis = []
+        touched = None
+        if b % 3 == 1:      # the public attributes and properties of the p-box are read first (mean, var, support, enclosed_area, ...): no answer may change
+            touched = pbx.touch_public(p)
+            chk.count("attributes-read-first", key=("touch", b))
         for q in gen_queries(chk, X, chk.tier):
             o = run_query(p, q)
             cases.append((X, q, o, kind))
             chk.count(f"{q[0]}", key=(q[0], kind, str(q[1:])[:40]))
             why = oracle(X, q, o, pis)
             if why:
-                chk.report(f"Pbox.{q[0]}", why, {"kind": "oracle", "X": X, "query": q, "observed": o if o[0] in ("pair", "exc") else o[0]})
+                chk.report(f"Pbox.{q[0]}", why, {"kind": "oracle", "X": X, "query": q, "observed": o if o[0] in ("pair", "exc") else o[0],
+                                                 "attributes_read_before_the_query (this p-box, or an earlier one in the same process)": touched or "see earlier boxes: b % 3 == 1"})
         pi_relations(chk, X, pis, "Pbox.")
     # correspondence: group the queries of one p-box in one file (the p-box literal is written once)
     chunks = []
